@@ -226,13 +226,17 @@ def r202(ctx):
     if ok and form == 'literal':
         keys = sorted(given)
         allowed = {'fn', 'open', 'fmd', 'pandas_nulls', '_base_dtype', 'tz', '_columns_dtype'}
-        extra = [k for k in keys if k not in allowed]
+        from .c06 import _must_assign
+        rebuilt = _must_assign(api, 'ParquetFile._set_attrs')    # whatever is forwarded under these names is replaced at once
+        extra = [k for k in keys if k not in allowed and k not in rebuilt]
         ctx.ob('R20.2', 'api.__getitem__:derived-handle-inherits-only-dataset-level-state', not extra,
                'state forwarded to the sliced handle: %s; anything computed from the parent\'s row groups (statistics, '
                'category caches ...) is stale for the slice: %s' % (keys, extra or 'none'), api.loc(f))
     if ok:
+        from .c06 import _must_assign
+        rebuilt = _must_assign(api, 'ParquetFile._set_attrs')
         for k_, v_ in sorted(given.items()):
-            if k_ != 'fmd':
+            if k_ != 'fmd' and k_ not in rebuilt:
                 ctx.ob('R20.2', 'api.__getitem__:forwarded-state-%s-is-the-parents-own' % k_, norm(v_) == 'self.%s' % k_,
                        '"%s": %s - a sliced handle answers metadata questions (dtypes, time zones, column index type) from the '
                        'state of the handle it came from; anything else makes partial reads disagree with the full read' % (k_, norm(v_)), api.loc(v_))
